@@ -18,7 +18,7 @@ TRUSTED_BASE = [
 LEVEL = ("Coq theorems (Props/C04.v): every generated product/quotient operator is the normal form derived_nf (combined scale, natural unit or _fit of the reference-unit magnitude) - generic in amount type and instances; "
          "each of the twelve borrowed-operand forwarders returns exactly the owned form's result; for every definition of the tree the generated impl table holds exactly the operator rows of the model "
          "(A*B, B*A, R/A, R/B resp. A/B, R*B, B*R, A/R, owned + 3 borrowed forms each, declared result type), all related types have a reference unit; main crate: 9 derivations, 34 owned instances. "
-         "Magnitudes (exact rational product/quotient of the operands' reference-unit magnitudes, multiply-then-divide round trip) are judged on the implementation (testing, supporting). In the binary floating-point configuration the magnitude of every derived product/quotient is a theorem: two rounding factors on the natural-unit path, four through _fit (ACC_C04_natural_unit, ACC_C04_fit_path in Props/Accuracy.v), and multiplying by a value and then dividing by it returns the original magnitude up to four rounding factors on the natural-unit path (ACC_C04_mul_then_div); in the decimal configuration the result is within 5e-19 (|sc| + |a op b|) of the exact magnitude on the natural-unit path - exactly it when amounts and scales combine within 18 fractional digits - and within 5e-19 (|sc| + |a op b| + 1 + |s_w|) through _fit, whenever the operation returns (DEC_C04_natural_unit, DEC_C04_fit_path in Props/AccuracyDec.v).")
+         "Magnitudes (exact rational product/quotient of the operands' reference-unit magnitudes, multiply-then-divide round trip) are judged on the implementation (testing, supporting). In the binary floating-point configuration the magnitude of every derived product/quotient is a theorem: two rounding factors on the natural-unit path, four through _fit (ACC_C04_natural_unit, ACC_C04_fit_path in Props/Accuracy.v), and multiplying by a value and then dividing by it returns the original magnitude up to four rounding factors on the natural-unit path (ACC_C04_mul_then_div; decimal: within an explicit bound, DEC_C04_mul_then_div); in the decimal configuration the result is within 5e-19 (|sc| + |a op b|) of the exact magnitude on the natural-unit path - exactly it when amounts and scales combine within 18 fractional digits - and within 5e-19 (|sc| + |a op b| + 1 + |s_w|) through _fit, whenever the operation returns (DEC_C04_natural_unit, DEC_C04_fit_path in Props/AccuracyDec.v).")
 LEVEL_NOTE = "Trusted: Coq kernel, translator rs2j+j2v, Macro/Impls.v (cross-checked), hand models of binary64/fpdec in the correspondence; stdlib real-number axioms via Flocq in the computed facts."
 ASSUMPTIONS = [
     "rustc resolves `x * y`, `&x * y`, `x * &y`, `&x * &y` to the impls of the table (validated: every form is executed through the operators by the harness)",
